@@ -704,8 +704,266 @@ static std::string run_gencorpus(const CaseSpec &cs) {
   return "";
 }
 
+// ------------------------------------------------------------------------------------------------
+// C07: quantized normals.
+static bool normal_degenerate(const float *v) {
+  // the encoder's own definition of "no direction" (FloatVectorToQuantizedOctahedralCoords): abs-sum <= 1e-6
+  const double s = std::fabs(static_cast<double>(v[0])) + std::fabs(static_cast<double>(v[1])) + std::fabs(static_cast<double>(v[2]));
+  return !(s > 1e-6);
+}
+static std::string check_normal(const float *in, const float *out, int q, const int32_t *st) {
+  for (int c = 0; c < 3; ++c)
+    if (!std::isfinite(out[c])) return "decoded normal is not finite";
+  const double len = std::sqrt(static_cast<double>(out[0]) * out[0] + static_cast<double>(out[1]) * out[1] + static_cast<double>(out[2]) * out[2]);
+  const int32_t maxv = (1 << q) - 2;
+  if (st && (st[0] < 0 || st[1] < 0 || st[0] > maxv || st[1] > maxv)) return "octahedral coordinates (" + std::to_string(st[0]) + "," + std::to_string(st[1]) + ") outside the " + std::to_string(q) + "-bit square";
+  if (normal_degenerate(in)) {
+    if (!(std::fabs(len - 1) <= 1e-6 || len == 0)) return "degenerate input normal decodes to a vector that is neither unit nor zero";
+    return "";
+  }
+  if (std::fabs(len - 1) > 1e-6) return "decoded normal has length " + std::to_string(len);
+  const double il = std::sqrt(static_cast<double>(in[0]) * in[0] + static_cast<double>(in[1]) * in[1] + static_cast<double>(in[2]) * in[2]);
+  double dot = (static_cast<double>(in[0]) * out[0] + static_cast<double>(in[1]) * out[1] + static_cast<double>(in[2]) * out[2]) / (il * len);
+  // angle through the cross product for small angles (acos loses precision near 1)
+  const double cx = static_cast<double>(in[1]) * out[2] - static_cast<double>(in[2]) * out[1];
+  const double cy = static_cast<double>(in[2]) * out[0] - static_cast<double>(in[0]) * out[2];
+  const double cz = static_cast<double>(in[0]) * out[1] - static_cast<double>(in[1]) * out[0];
+  const double cross = std::sqrt(cx * cx + cy * cy + cz * cz) / (il * len);
+  const double angle = std::atan2(cross, dot);
+  const double bound = 3.0 * (2.0 / (std::ldexp(1.0, q) - 2.0)) + 2e-6;
+  if (!(angle <= bound)) {
+    return "normal (" + std::to_string(in[0]) + "," + std::to_string(in[1]) + "," + std::to_string(in[2]) + ") decodes with an angle error of " + std::to_string(angle) +
+           " rad > bound " + std::to_string(bound) + " at " + std::to_string(q) + " bits";
+  }
+  return "";
+}
+
+static void gen_normal(float *v, std::string *cls, SplitMix *bulk) {
+  auto ri = [&](int lo, int hi) { return bulk ? bulk->range(lo, hi) : R(lo, hi); };
+  auto u = [&]() { return ri(-(1 << 20), 1 << 20) / static_cast<double>(1 << 20); };
+  const int c = [&] { int r = ri(0, 99); return r < 30 ? 0 : r < 48 ? 1 : r < 62 ? 2 : r < 76 ? 3 : r < 92 ? 4 : 5; }();
+  double x[3] = {u(), u(), u()};
+  const double eps = std::pow(10.0, -ri(2, 7));
+  switch (c) {
+    case 0: *cls = "normal_uniform"; break;
+    case 1: {  // near an axis
+      const int a = ri(0, 2);
+      const double sgn = ri(0, 1) ? 1 : -1;
+      for (int k = 0; k < 3; ++k) x[k] = (k == a ? sgn : 0) + eps * u();
+      *cls = "normal_near_axis";
+      break;
+    }
+    case 2: {  // near an octahedron edge (two equal magnitudes, third ~ 0) or a face centre
+      if (ri(0, 1)) {
+        const int a = ri(0, 2);
+        for (int k = 0; k < 3; ++k) x[k] = (k == a ? 0 : (ri(0, 1) ? 1 : -1)) + eps * u();
+      } else {
+        for (int k = 0; k < 3; ++k) x[k] = (ri(0, 1) ? 1 : -1) + eps * u();
+      }
+      *cls = "normal_near_edge_or_face_centre";
+      break;
+    }
+    case 3: {  // near the equator x = 0 / the diamond's edge in (s,t) space where the hemisphere changes
+      x[0] = eps * u() * (ri(0, 3) == 0 ? 0 : 1);
+      *cls = "normal_near_hemisphere_boundary";
+      break;
+    }
+    case 4: {
+      const double sc = std::pow(10.0, ri(-5, 30));
+      for (int k = 0; k < 3; ++k) x[k] *= sc;
+      *cls = "normal_scaled_length";
+      break;
+    }
+    default: {
+      const int d = ri(0, 3);
+      const double sc = d == 0 ? 0 : d == 1 ? 1e-40 : d == 2 ? 3e-7 : 1e-10;
+      for (int k = 0; k < 3; ++k) x[k] *= sc;
+      *cls = "normal_degenerate_class";
+    }
+  }
+  for (int k = 0; k < 3; ++k) {
+    v[k] = static_cast<float>(x[k]);
+    if (!std::isfinite(v[k])) v[k] = 1e30f;
+  }
+}
+
+// transform level: AttributeOctahedronTransform alone, every q in 2..30
+struct NormSpec {
+  int32_t q = 8;
+  std::vector<float> v;  // triples
+  template <class A>
+  void io(A &a) {
+    a(q); a(v);
+  }
+};
+static std::string run_c07_transform(const NormSpec &ns) {
+  const uint32_t n = static_cast<uint32_t>(ns.v.size() / 3);
+  if (n == 0) return "";
+  GeometryAttribute ga;
+  ga.Init(GeometryAttribute::NORMAL, nullptr, 3, draco::DT_FLOAT32, false, 12, 0);
+  draco::PointAttribute att(ga);
+  att.Reset(n);
+  att.SetIdentityMapping();
+  for (uint32_t i = 0; i < n; ++i) att.SetAttributeValue(AttributeValueIndex(i), &ns.v[3 * i]);
+  draco::AttributeOctahedronTransform t;
+  t.SetParameters(ns.q);
+  std::unique_ptr<draco::PointAttribute> port = t.InitTransformedAttribute(att, n);
+  if (!t.TransformAttribute(att, {}, port.get())) return "TransformAttribute failed";
+  draco::PointAttribute target(ga);
+  target.Reset(n);
+  if (!t.InverseTransformAttribute(*port, &target)) return "InverseTransformAttribute failed";
+  draco::OctahedronToolBox tb;
+  tb.SetQuantizationBits(ns.q);
+  std::map<std::array<uint32_t, 3>, std::array<uint32_t, 3>> seen;
+  for (uint32_t i = 0; i < n; ++i) {
+    int32_t st[2];
+    port->GetValue(AttributeValueIndex(i), st);
+    float out[3];
+    target.GetValue(AttributeValueIndex(i), out);
+    std::string e = check_normal(&ns.v[3 * i], out, ns.q, st);
+    if (!e.empty()) return e;
+    int32_t cs, ct;
+    tb.CanonicalizeOctahedralCoords(st[0], st[1], &cs, &ct);
+    if (cs != st[0] || ct != st[1]) return "encoder emitted non-canonical octahedral coordinates";
+    std::array<uint32_t, 3> ik, ok;
+    memcpy(ik.data(), &ns.v[3 * i], 12);
+    memcpy(ok.data(), out, 12);
+    auto it = seen.find(ik);
+    if (it == seen.end()) seen[ik] = ok;
+    else if (it->second != ok) return "equal input normals decode to different vectors";
+  }
+  return "";
+}
+
+static bool make_normal_case(CaseSpec *cs, std::vector<std::string> *classes) {
+  GeomSpec &g = cs->g;
+  if (g.npoints == 0) return false;
+  int na = -1;
+  for (size_t i = 0; i < g.atts.size(); ++i)
+    if (g.atts[i].type == GeometryAttribute::NORMAL) na = static_cast<int>(i);
+  const int pa = g.pos_att();
+  if (pa < 0) return false;
+  if (na < 0) {
+    // add a per-position-entry normal attribute (same map as the position attribute)
+    AttSpec a = g.atts[pa];
+    a.type = GeometryAttribute::NORMAL;
+    uint32_t id = 4242;
+    for (bool clash = true; clash;) {
+      clash = false;
+      for (auto &x : g.atts) clash |= x.unique_id == id;
+      if (clash) ++id;
+    }
+    a.unique_id = id;
+    g.atts.push_back(a);
+    cs->o.per_att.push_back(AttOpt());
+    na = static_cast<int>(g.atts.size()) - 1;
+  }
+  AttSpec &a = g.atts[na];
+  a.dtype = draco::DT_FLOAT32;
+  a.ncomp = 3;
+  a.normalized = 0;
+  a.data.assign(static_cast<size_t>(a.nvalues) * 12, 0);
+  const bool bulk = a.nvalues > 150;
+  SplitMix sm(U64());
+  for (uint32_t v = 0; v < a.nvalues; ++v) {
+    float x[3];
+    std::string cls;
+    if (v > 0 && (bulk ? sm.range(0, 9) : R(0, 9)) == 0) {
+      memcpy(x, a.data.data() + static_cast<size_t>(bulk ? sm.below(v) : static_cast<uint64_t>(R(0, static_cast<int>(v) - 1))) * 12, 12);  // repeated value
+    } else {
+      gen_normal(x, &cls, bulk ? &sm : nullptr);
+      if (!bulk || v < 40) classes->push_back(cls);
+    }
+    memcpy(a.data.data() + static_cast<size_t>(v) * 12, x, 12);
+  }
+  AttOpt no;
+  no.qbits = W({25, 45, 30}) == 0 ? R(2, 7) : (P(60) ? R(8, 14) : R(15, g_thorough ? 24 : 22));
+  no.pred = pick({kPredUnset, kPredUnset, 0, 6, -2});
+  // positions quantized or integer so that the geometric normal predictor is available
+  AttOpt &po = cs->o.api == 1 ? cs->o.per_att[pa] : cs->o.per_type[GeometryAttribute::POSITION];
+  if (g.atts[pa].dtype == draco::DT_FLOAT32 && po.qbits <= 0 && P(80)) po.qbits = R(8, 16);
+  const bool pos_portable = (g.atts[pa].dtype == draco::DT_FLOAT32 && po.qbits > 0) ||
+                            (g.atts[pa].dtype >= draco::DT_INT8 && g.atts[pa].dtype <= draco::DT_UINT32);
+  if (no.pred == 6 && !(pos_portable && g.atts[pa].ncomp == 3) && open_finding("F18")) {
+    no.pred = kPredUnset;  // known finding F18: forced geometric-normal prediction without integer positions
+    count("excluded_F18_forced_mesh_prediction_without_portable_positions");
+  }
+  if (cs->o.api == 1) cs->o.per_att[na] = no;
+  else cs->o.per_type[GeometryAttribute::NORMAL] = no;
+  // other NORMAL attributes (api by type shares the options): drop them to keep one normal attribute
+  for (size_t i = g.atts.size(); i-- > 0;) {
+    if (static_cast<int>(i) != na && g.atts[i].type == GeometryAttribute::NORMAL) {
+      g.atts.erase(g.atts.begin() + i);
+      if (i < cs->o.per_att.size()) cs->o.per_att.erase(cs->o.per_att.begin() + i);
+      if (static_cast<int>(i) < na) --na;
+    }
+  }
+  if (P(35)) cs->o.enc_speed = cs->o.dec_speed = R(0, 3);  // favour the geometric normal predictor
+  return true;
+}
+
+static std::string run_c07(const CaseSpec &cs, const std::vector<std::string> &gen_classes) {
+  std::unique_ptr<draco::PointCloud> pc = build_geometry(cs.g);
+  EncodeResult er = encode_case(cs, *pc);
+  if (!er.status.ok()) {
+    count("encode_error");
+    return "";
+  }
+  DecodeResult N = decode_bytes(er.bytes);
+  if (!N.status.ok()) {
+    if (open_finding("F19") && f19_signature(er, cs)) return "";
+    return "decode failed: " + N.status.error_msg_string();
+  }
+  count("encode_ok");
+  classify(cs, er);
+  for (auto &c : gen_classes) count(c);
+  int na = -1;
+  for (size_t i = 0; i + 1 < cs.g.atts.size(); ++i)
+    if (cs.g.atts[i].type == GeometryAttribute::NORMAL) na = static_cast<int>(i);
+  if (na < 0) return "";
+  const AttSpec &a = cs.g.atts[na];
+  const int q = cs.o.opt_for(cs.g, na).qbits;
+  const bool kd = er.geometry_type == 0 && er.method == 1;
+  if (kd) {
+    count("kdtree_plain_quantization_of_normals (not octahedral, C04 territory)");
+    return "";
+  }
+  std::vector<uint32_t> orig_of;
+  std::string err = tag_map(cs, *N.geom, &orig_of);
+  if (!err.empty()) return err;
+  DecodeResult S = decode_bytes(er.bytes, {GeometryAttribute::NORMAL});
+  if (!S.status.ok()) return "skip-transform decode failed";
+  const draco::PointAttribute *dn = att_by_uid(*N.geom, a.unique_id), *sn = att_by_uid(*S.geom, a.unique_id);
+  if (!dn || !sn || dn->data_type() != draco::DT_FLOAT32 || sn->num_components() != 2) return "normal attribute lost or not octahedral in the skip decode";
+  bool nt = false;
+  std::map<std::array<uint32_t, 3>, std::array<uint32_t, 3>> seen;
+  for (uint32_t p = 0; p < N.geom->num_points(); ++p) {
+    float out[3], in[3];
+    int32_t st[2];
+    dn->GetMappedValue(PointIndex(p), out);
+    sn->GetMappedValue(PointIndex(p), st);
+    memcpy(in, a.value(a.value_of_point(orig_of[p])), 12);
+    err = check_normal(in, out, q, st);
+    if (!err.empty()) return err;
+    nt |= !normal_degenerate(in);
+    std::array<uint32_t, 3> ik, ok;
+    memcpy(ik.data(), in, 12);
+    memcpy(ok.data(), out, 12);
+    auto it = seen.find(ik);
+    if (it == seen.end()) seen[ik] = ok;
+    else if (it->second != ok) return "equal input normals decode to different vectors";
+  }
+  count(q <= 7 ? "normal_q_2_7" : q <= 14 ? "normal_q_8_14" : "normal_q_15_24");
+  if (nt) {
+    nontrivial(hash_tokens(to_tokens(cs)));
+    if (cs.g.npoints <= 12) sample(describe_case(cs));
+  }
+  return "";
+}
+
 static std::string run_mode_inner(const std::string &mode, const CaseSpec &cs, const std::vector<std::string> &classes) {
   if (mode == "gencorpus") return run_gencorpus(cs);
+  if (mode == "c07") return run_c07(cs, classes);
   if (mode == "c10") return run_c10(cs, classes);
   if (mode == "c04") return run_c04(cs, classes);
   if (mode == "c01") return run_roundtrip(cs, 0, classes);
@@ -744,6 +1002,11 @@ static GenCfg cfg_for(const std::string &mode) {
   }
   if (mode == "c04") c.max_extra_atts = 3;
   if (mode == "gencorpus") c.allow_large = false;
+  if (mode == "c07") {
+    c.allow_large = false;
+    c.max_extra_atts = 2;
+    c.mesh_pct = 75;
+  }
   return c;
 }
 
@@ -761,7 +1024,37 @@ int main(int argc, char **argv) {
       set_case(mode, to_tokens(sp), sp.a.g.npoints <= 100 ? "{\"A\":" + describe_case(sp.a) + ",\"B\":" + describe_case(sp.b) + "}" : std::string());
       return guarded([&] { return run_c12(sp); });
     }
+    if (mode == "c07" && P(35)) {
+      // transform level: every q in 2..30 without the entropy coder
+      NormSpec ns;
+      ns.q = R(2, 30);
+      const int n = R(1, 40);
+      for (int i = 0; i < n; ++i) {
+        float x[3];
+        std::string cls;
+        gen_normal(x, &cls, nullptr);
+        count(cls);
+        ns.v.insert(ns.v.end(), x, x + 3);
+      }
+      set_case("c07t", to_tokens(ns), J().num("q", ns.q).num("vectors", n).done());
+      std::string e = guarded([&] { return run_c07_transform(ns); });
+      count("transform_level_cases");
+      count(ns.q <= 24 ? "transform_q_2_24" : "transform_q_25_30");
+      if (e.empty()) {
+        nontrivial(hash_tokens(to_tokens(ns)));
+        if (stats().samples.size() < 2) {
+          std::string vv = "[";
+          for (size_t i = 0; i < ns.v.size() && i < 9; ++i) vv += (i ? "," : "") + std::to_string(ns.v[i]);
+          sample(J().str("level", "AttributeOctahedronTransform").num("q", ns.q).raw("first_vectors", vv + "]").done(), 2);
+        }
+      }
+      return e;
+    }
     CaseSpec cs = gen_case(cfg_for(mode), &classes);
+    if (mode == "c07") {
+      if (!make_normal_case(&cs, &classes)) return std::string();
+      add_tag_attribute(&cs);
+    }
     if (mode == "c04") add_tag_attribute(&cs);
     set_case(mode, to_tokens(cs), cs.g.npoints <= 200 ? describe_case(cs) : std::string());
     return run_mode(mode, cs, classes);
@@ -771,6 +1064,11 @@ int main(int argc, char **argv) {
       C12Spec sp;
       if (!from_tokens(t, &sp)) return std::string("bad replay tokens");
       return guarded([&] { return run_c12(sp); });
+    }
+    if (mode == "c07t") {
+      NormSpec ns;
+      if (!from_tokens(t, &ns)) return std::string("bad replay tokens");
+      return guarded([&] { return run_c07_transform(ns); });
     }
     CaseSpec cs;
     if (!from_tokens(t, &cs)) return std::string("bad replay tokens");
@@ -783,6 +1081,13 @@ int main(int argc, char **argv) {
         "seams, isolated points) x option specs (API, method, sub-method, speeds, quantization, forced prediction, "
         "built-in compression, split-on-seams); non-trivial = encode succeeded and (mesh with >= 2 attributes or two "
         "faces sharing an edge | point cloud with >= 2 distinct points); distinct by spec hash";
+  } else if (mode == "c07") {
+    stats().rule =
+        "float32 normal vectors (uniform directions; neighbourhoods 1e-7..1e-2 of the axes, octahedron edges, face centres "
+        "and the hemisphere boundary; lengths 1e-5..1e30; a degenerate class) (a) through AttributeOctahedronTransform alone "
+        "for q = 2..30 and (b) carried by meshes / point clouds of the shared generator (sequential and Edgebreaker, "
+        "difference and geometric-normal prediction, q = 2..22, tag attribute for the correspondence); non-trivial = a case "
+        "with >= 1 non-degenerate vector; distinct by spec hash";
   } else if (mode == "c10") {
     stats().rule =
         "same generator, every case with >= 1 quantized float attribute; each stream decoded normally and with the "
